@@ -10,6 +10,7 @@ use std::fs::OpenOptions;
 use std::io::Write;
 use std::time::Duration;
 
+pub use crate::cycles::verif_hooks::*;
 pub use crate::jobserver::verif_hooks::*;
 pub use crate::logs::verif_hooks::*;
 pub use crate::paths::verif_hooks::*;
